@@ -10,19 +10,19 @@ if '--round' in args:
 pid, n, det = args[0], int(args[1]), [d for d in args[2].split(',') if d]
 note = args[3] if len(args) > 3 else ''
 src = f'/tmp/wtout/{pid}{rnd}'
-k = n + {'': 0, 'b': 2, 'c': 4, 'd': 6, 'e': 8, 'f': 10, 'g': 11}[rnd]
+k = n + {'': 0, 'b': 2, 'c': 4, 'd': 6, 'e': 8, 'f': 10, 'g': 11, 'h': 12}[rnd]
 dst = f'/verif/seeded/{pid}-m{k}'
 os.makedirs(dst, exist_ok=True)
 shutil.copy(f'{src}/mut{n}.diff', f'{dst}/patch.diff')
 shutil.copy(f'{src}/mut{n}_demo.py', f'{dst}/demo.py')
 notes = open(f'{src}/mut{n}_notes.txt').read()
 suite = ''
-log = {'': '/tmp/suite_all.log', 'b': '/tmp/suite_all2.log', 'c': '/tmp/suite_all3.log', 'd': '/tmp/suite_all4.log', 'e': '/tmp/suite_all5.log', 'f': '/tmp/suite_all6.log', 'g': '/tmp/suite_all7.log'}[rnd]
+log = {'': '/tmp/suite_all.log', 'b': '/tmp/suite_all2.log', 'c': '/tmp/suite_all3.log', 'd': '/tmp/suite_all4.log', 'e': '/tmp/suite_all5.log', 'f': '/tmp/suite_all6.log', 'g': '/tmp/suite_all7.log', 'h': '/tmp/suite_all8.log'}[rnd]
 if os.path.exists(log):
     for line in open(log):
         if line.startswith(f'{pid} mut{n} '):
             suite = line.strip()
-meta = {'breaks': pid, 'origin': 'written by a sub-agent from the property text alone (no access to /verif)' + (f', round {"234567"["bcdefg".index(rnd)]}' if rnd else ''),
+meta = {'breaks': pid, 'origin': 'written by a sub-agent from the property text alone (no access to /verif)' + (f', round {"2345678"["bcdefgh".index(rnd)]}' if rnd else ''),
         'author_notes': notes, 'detected_by': det,
         'what_was_run': f'tools/evalmut.sh (demo exits 0 on the clean tree, non-zero with the patch); full pinned suite on the patched tree: {suite}; '
                         + (f'tools/seedtest.sh seeded/{pid}-m{k}/patch.diff {" ".join(det)} -> each exits 1 with a VIOLATION line' if det else
